@@ -203,6 +203,20 @@ CLAIMED["C18"] = dict(
          "the last explicit arm is NOT noticed); Part B is testing: ipc only, request-response / blackboard / waitset functions of the C API are covered by the tables only.",
     technique="Lean 4 proof over tables translated from the source on every run (decide +kernel, exception lists proved exact) + four-world differential run C API vs Rust API",
     design="DESIGN.md §5 C18, notes/C18-design.md")
+CLAIMED["C11"] = dict(
+    level="proof",
+    text="Lean 4 theorems over an L1 model of request-response through the real port machinery (registries, request connections client->server, response connections server->client "
+         "with one channel per active request, channel states and disconnect hints, data segments with reference counts, active request / pending response lifecycles; ghost request "
+         "and send numbers) for EVERY reachable state: every response handed out by a pending response carries that request's id and was sent for a request of the same client OR that "
+         "client was already gone when it was sent (the unconditional routing statement is FALSE: cross-client mis-routing after slot reuse, machine-checked history replayed on the real "
+         "ports = known finding); per (request, server) stream responses arrive in send order, at most once, loss only by the documented full-buffer / overflow rule; each request is handed "
+         "to a server at most once, in send order; dropping a pending response / active request disconnects the stream (no stored connection carries the id, is_connected false, a later owner "
+         "of the channel only hands out responses with its own id); active-request limit, buffer size and per-connection borrow limit are never exceeded and a refused send changes nothing.",
+    note="Trusted: Lean kernel + 3 standard axioms; hand-written L1 model (tie = differential run of the real Client/Server ports, local + ipc: exhaustive short histories, random, "
+         "saturation, churn; ≈3M calls in the reference run; 15 of 18 single-branch model mutants are killed by the run); API calls atomic; persistence of a closed channel word across "
+         "re-attachment is checked by an executable predicate in the driver only (testing); chunk contents travel with the queue entry (content stability is C02's subject).",
+    technique="Lean 4 proof (inductive invariants over API histories; refutation + partial theorem for routing) + differential correspondence model vs implementation",
+    design="DESIGN.md §5 C11, notes/C11-design.md")
 NOT_YET = {}
 
 def main():
